@@ -56,7 +56,7 @@ class C17(framework.PropertyCheck):
 
     def cases(self, rng, tier, n):
         for i in range(n):
-            yield {'seed': rng.randrange(1 << 30), 'kind': 'kwargs' if i % 10 == 9 else 'history'}
+            yield {'seed': rng.randrange(1 << 30), 'kind': 'kwargs' if i % 10 in (4, 9) else 'history'}
 
     _trace = None
 
@@ -150,10 +150,10 @@ class C17(framework.PropertyCheck):
         r = random.Random(case['seed'])
         w = impl.fresh()
         names = ['ka', 'kb', 'kc']
-        pre = {n: r.randint(1, 9) for n in names if r.random() < 0.5}
+        pre = {n: r.choice([0, 0, r.randint(1, 9)]) for n in names if r.random() < 0.5}    # also values that are false in Python
         for n, v in pre.items():
             w.eval(impl.parse(f'(define {n} {v})'))
-        kw = {n: r.randint(10, 19) for n in names if r.random() < 0.6}
+        kw = {n: r.choice([0, r.randint(10, 19)]) for n in names if r.random() < 0.6}
         expr = '(list ' + ' '.join(f"(if (defined? '{n}) {n} \"-\")" for n in names) + ')'
         res = impl.run_eval(w, impl.parse(expr), 'eorg')
         try:
